@@ -4,6 +4,7 @@ import (
 	"context"
 	"crypto/x509"
 	"fmt"
+	"net/http"
 	"os"
 	"path/filepath"
 	"strings"
@@ -181,8 +182,11 @@ func newNet(in *Input) *netsim.Sim {
 		if strings.HasSuffix(route, "*") {
 			continue
 		}
-		b, l, e := body, in.Lengths[route], in.Endless[route]
-		net.Handle(route, func(*netsim.Request) netsim.Reply {
+		b, l, e, rd, rt := body, in.Lengths[route], in.Endless[route], in.Redirect[route], route
+		net.Handle(route, func(rq *netsim.Request) netsim.Reply {
+			if rd {
+				return netsim.Reply{Status: 307, Header: http.Header{"Location": []string{fmt.Sprintf("http://%s?hop=%d", rt, rq.Nth+1)}}, Class: "redirect"}
+			}
 			return netsim.Reply{Body: b, Class: "scripted", ContentLength: l, Endless: e}
 		})
 	}
